@@ -21,9 +21,9 @@ WT = '/tmp/mutsweep_wt'
 CHECKS_FOR = {
     'pyModelChecking/graph.py': ['C12', 'C13', 'C01'],
     'pyModelChecking/kripke.py': ['C14', 'C15', 'C07'],
-    'pyModelChecking/CTL/model_checking.py': ['C01', 'C04'],
-    'pyModelChecking/LTL/model_checking.py': ['C02'],
-    'pyModelChecking/CTLS/model_checking.py': ['C03', 'C19'],
+    'pyModelChecking/CTL/model_checking.py': ['C01', 'C04', 'C08'],
+    'pyModelChecking/LTL/model_checking.py': ['C02', 'C08', 'C04'],
+    'pyModelChecking/CTLS/model_checking.py': ['C03', 'C08', 'C04', 'C19'],
     'pyModelChecking/language.py': ['C11', 'C08', 'C05'],
     'pyModelChecking/PL/language.py': ['C08', 'C11'],
     'pyModelChecking/CTLS/language.py': ['C05', 'C08', 'C15'],
